@@ -91,8 +91,11 @@ Fixpoint check_invs (l : list inv) (obs : list (bool * nat * nat * list command)
   end.
 
 (* ---------- selector 4: Commands with foreign / malformed targets through the informer filter ---------- *)
+(* the sixth token describes the Command's controller OWNER reference (0 none, 1 a Job, 2 a
+   Queue, 3 an object of a foreign group), which may differ from its TargetObject: both
+   filters look at TargetObject only, so the model ignores it *)
 Definition dDcmd : dec dcmd :=
-  let* k := dZ in let* v := dZ in let* ns := dZ in let* n := dZ in let* a := dZ in
+  let* k := dZ in let* v := dZ in let* ns := dZ in let* n := dZ in let* a := dZ in let* _owner := dZ in
   ret (mkDcmd (if k =? 0 then None else Some (k, v)) ns n a).
 Definition eObs (x : nat * bool) : list Z := [Z.of_nat (fst x); if snd x then 1 else 0].
 Definition dObs1 : dec (nat * bool) := let* n := dNat in let* p := dBool in ret (n, p).
